@@ -31,6 +31,7 @@ def errStr : Err → String
   | .unencodable n => "err unencodable " ++ encStr n
   | .decodeError n => "err decodeError " ++ encStr n
   | .syntaxError => "err syntaxError -"
+  | .preprocessorOnBytes => "err preprocessorOnBytes -"
 
 def inputStr : Input → String
   | .str t => "str " ++ encStr t
@@ -107,11 +108,16 @@ def handle : Handler
             | .ok i => "ok " ++ inputStr i)
   | ["repr", t, np] => do let t ← decStr t; let np ← decStr np; pure (encStr (pyRepr (npOf np) t))
   | ["magic", n] => do let n ← decStr n; pure (encStr (magicLine n))
+  | "modhead" :: n :: future => do
+      -- the first lines of a module file: magic comment and `from __future__ import` line, in the order of write_toplevel
+      let n ← decStr n; let future ← future.mapM decStr
+      pure (encStr (moduleText (fun _ => false) (some n) Generated.Encoding.magicInModuleFile future []))
+  | ["preorder"] => some (encBool Generated.Encoding.decodeBeforePreprocessors ++ " " ++ encBool Generated.Encoding.skipAfterPreprocessors)
   | ["modenc", k] => do let k ← decOptName k; pure (encStr (orDefault k Generated.Encoding.moduleFallback))
-  | ["modfile", k, t] => do
+  | "modfile" :: k :: t :: future => do
       -- a module whose body is one `code` piece, encoded with a Lean codec
-      let k ← decOptName k; let t ← decStr t
-      pure (match compileModuleFile leanCodecs (fun _ => false) k [.code t] with
+      let k ← decOptName k; let t ← decStr t; let future ← future.mapM decStr
+      pure (match compileModuleFile leanCodecs (fun _ => false) k future [.code t] with
             | .error e => errStr e
             | .ok b => "ok " ++ encBytes b)
   | ["source", b, k] => do
